@@ -192,8 +192,15 @@ def apply_damage(data, dmg):
         return bytes(b)
     if k == 'subst':          # replace the first occurrence of a byte string by another of the same length (a still-readable variant)
         old, new = bytes.fromhex(dmg['find']), bytes.fromhex(dmg['repl'])
-        i = data.find(old)
-        return data if i < 0 else data[:i] + new + data[i + len(old):]
+        nth = dmg.get('nth', 0)
+        if nth == 'all':
+            return data.replace(old, new)
+        i = -1
+        for _ in range(nth + 1):
+            i = data.find(old, i + 1)
+            if i < 0:
+                return data
+        return data[:i] + new + data[i + len(old):]
     if k == 'foreign':
         return foreign_bytes(dmg['what'], dmg['seed'], dmg['size'])
     if k == 'other':          # a valid file of another format
@@ -283,7 +290,9 @@ LATE_FAIL_SEEDS = {
             ('BIT/data/29_10-_3Z_dwl_DWL_WIRE_1644659.bit', [[214, 7], [217, 1], [93, 2], [77, 0]]),
             ('BIT/data/29_10-_3Z_dwl_DWL_WIRE_1644659.bit', [[178, 4], [290, 6], [79, 0], [193, 7]])],
 }
-VARIANT_TOKENS = {'rp': [b'Halliburton', b'AUSTRALIA', b'9262611', b'R3.2.0'], 'lis': [b'DDBHC', b'88/11/15'], 'bit': [b'SHELL EXPRO', b'MANSFIELD']}
+VARIANT_TOKENS = {'rp': [b'Halliburton', b'AUSTRALIA', b'9262611', b'R3.2.0'],
+                  'lis': [b'VALU    CHEC', b'VALU    WEST', b'VALU    COUN', b'VALU    21 2', b'VALU    BOTH', b'VALU    STAT', b'88/11/15'],
+                  'bit': [b'SHELL EXPRO', b'MANSFIELD', b'T  2 9 / 1 0', b'CONDSN  SP']}
 
 
 def gen_candidates(rng, fmt, want, count):
@@ -307,34 +316,65 @@ def gen_candidates(rng, fmt, want, count):
                 d = {'kind': 'trunc', 'at': rng.randrange(max(n // 3, 100), n), 'where': 'deep'}
             out.append((src, d))
     else:
+        known = []
         for src in spec['valid']:
             data = _example(src)
             for tok in VARIANT_TOKENS[fmt]:
-                if tok in data:
+                for nth in range(min(data.count(tok), 3)):      # the same text occurs in several records (ORIGIN, PARAMETER, ...)
                     new = tok[:-1] + bytes([tok[-1] ^ 1])
-                    out.append((src, {'kind': 'subst', 'find': tok.hex(), 'repl': new.hex()}))
+                    known.append((src, {'kind': 'subst', 'find': tok.hex(), 'repl': new.hex(), 'nth': nth}))
+        rng.shuffle(known)
+        out += known[:max(count // 2, 4)]
         while len(out) < count:
             src = rng.choice(spec['valid'])
             data = _example(src)
-            runs = [m for m in re.finditer(rb'[A-Za-z]{6,}', data) if m.start() > 100]
-            if runs and rng.random() < 0.5:
+            runs = list(re.finditer(rb'[A-Za-z0-9][A-Za-z0-9 /.]{4,}[A-Za-z0-9]', data[:40000]))
+            if runs and rng.random() < 0.8:
                 m = rng.choice(runs)
-                tok = m.group(0)[:12]
-                out.append((src, {'kind': 'subst', 'find': tok.hex(), 'repl': (tok[:-1] + (b'Q' if tok[-1:] != b'Q' else b'Z')).hex()}))
+                off = m.start() + min(len(m.group(0)), 12) - 1          # last character of the (first 12 bytes of the) text
+                out.append((src, {'kind': 'header', 'off': off, 'bytes': bytes([data[off] ^ 1]).hex(), 'variant': True}))
             else:
                 n = len(data)
                 out.append((src, {'kind': 'flip', 'bits': [[rng.randrange(n // 2, n), rng.randrange(8)]]}))
     return out[:max(count, len(out))]
 
 
+def tree_signature(root):
+    """{output file name: {LAS section: hash}} without the CREA. line — to tell WHICH section a variant changes"""
+    sig = {}
+    for key in read_tree(root):
+        sec, cur = {}, '?'
+        with open(os.path.join(root, key), 'rb') as fh:
+            for i, ln in enumerate(fh.read().split(b'\n')):
+                if i < 12 and ln.startswith(b'CREA.'):
+                    continue
+                if ln.startswith(b'~'):
+                    cur = ln.split()[0].decode('latin-1')
+                sec.setdefault(cur, hashlib.sha1()).update(ln + b'\n')
+        sig[key] = {k: v.hexdigest() for k, v in sec.items()}
+    return sig
+
+
+def sig_diff(a, b):
+    """names of the sections in which two signatures differ (a file present on one side only counts as '*')"""
+    out = set()
+    for key in set(a) | set(b):
+        if key not in a or key not in b:
+            out.add('*')
+        else:
+            out |= {s_ for s_ in set(a[key]) | set(b[key]) if a[key].get(s_) != b[key].get(s_)}
+    return out
+
+
 def screen(fmt, cands, opt, base):
-    """Convert every candidate on its own (fresh process each); returns [(src, damage, class, n_outputs)]."""
+    """Convert every candidate on its own (fresh process each, every candidate under the SAME file name so that the
+    outputs are comparable); returns [(src, damage, class, n_outputs, signature)]."""
     shutil.rmtree(base, ignore_errors=True)
-    din = os.path.join(base, 'in')
-    os.makedirs(din)
     specs = []
+    nm = 'cand' + FMT[fmt]['exts'][0]
     for i, (src, d) in enumerate(cands):
-        nm = 'c%02d%s' % (i, FMT[fmt]['exts'][0])
+        din = os.path.join(base, 'i%02d' % i)
+        os.makedirs(din)
         with open(os.path.join(din, nm), 'wb') as fh:
             fh.write(apply_damage(_example(src), d))
         specs.append({'fmt': fmt, 'opt': opt, 'mode': 'single', 'file': os.path.join(din, nm), 'din': din,
@@ -343,9 +383,81 @@ def screen(fmt, cands, opt, base):
     out = []
     for i, ((src, d), st) in enumerate(zip(cands, res)):
         cls = classify(res_tuple(st[1][0])) if st[0] == 'ok' and st[1] else st[0]
-        out.append((src, d, cls, len(read_tree(os.path.join(base, 'o%02d' % i)))))
+        sig = tree_signature(os.path.join(base, 'o%02d' % i))
+        out.append((src, d, cls, len(sig), sig))
     shutil.rmtree(base, ignore_errors=True)
     return out
+
+
+def _subst(tok, nth=0):
+    return {'kind': 'subst', 'find': tok.hex(), 'repl': (tok[:-1] + bytes([tok[-1] ^ 1])).hex(), 'nth': nth}
+
+
+def fixed_recipes():
+    """The deterministic corpus (no rng), run first on every run: for each format a recursive tree in which ONE basename
+    occurs in several sub-directories with contents that are all fully convertible, produce every section, and differ in a
+    header / parameter value.  Anything remembered per basename by a process (a cache, a module-level table) shows up as a
+    difference from the file-alone conversion in the sequential and jobs=1 runs."""
+    B = 'RP66V1/data/BASIC_FILE.dlis'; T = 'RP66V1/data/BASIC_FILE_WITH_TWO_VISIBLE_RECORDS_NO_IFLRS.dlis'
+    L13 = 'LIS/data/DILLSON-1_WELL_LOGS_FILE-013.LIS'; L49 = 'LIS/data/DILLSON-1_WELL_LOGS_FILE-049.LIS'
+    BT = 'BIT/data/29_10-_3Z_dwl_DWL_WIRE_1644659.bit'
+    def tree(fmt, name, items, extra):
+        files = [{'name': d + name, 'src': src, 'damage': dmg, 'variant': dmg is not None} for d, src, dmg in items]
+        files += [{'name': n_, 'src': src, 'damage': dmg, 'variant': dmg is not None} for n_, src, dmg in extra]
+        return {'fmt': fmt, 'files': files, 'opt': ['sample', 16], 'tag': 'fixed-' + fmt, 'recurse': True, 'shape': 'fixed'}
+    return [
+        tree('rp', 'MAIN_LOG.dlis',
+             [('RUN_1/', B, _subst(b'Halliburton', 1)),      # PARAMETER SVCO value
+              ('RUN_2/', B, None),
+              ('RUN_3/', B, _subst(b'AUSTRALIA', 0)),        # PARAMETER COUN value
+              ('RUN_4/', B, _subst(b'Halliburton', 0)),      # ORIGIN (well information)
+              ('RUN_4/SUB/', B, _subst(b'R3.2.0', 0))],
+             [('RUN_1/HDR.dlis', T, None), ('RUN_2/HDR.dlis', T, _subst(b'AUSTRALIA', 0)), ('HDR.dlis', 'RP66V1/data/MINIMAL_FILE.dlis', None)]),
+        tree('lis', 'MAIN_LOG.lis',
+             [('RUN_1/', L13, _subst(b'VALU    CHEC')),      # CONS value (parameter section)
+              ('RUN_2/', L13, None),
+              ('RUN_3/', L13, _subst(b'VALU    WEST')),      # CONS value shown in the well section
+              ('RUN_3/SUB/', L13, _subst(b'VALU    BOTH'))],
+             [('RUN_1/AUX.lis', L49, None), ('RUN_2/AUX.lis', L49, _subst(b'VALU    COUN')), ('AUX.lis', L49, _subst(b'VALU    21 2'))]),
+        tree('bit', 'MAIN_LOG.bit',
+             [('RUN_1/', BT, _subst(b'SHELL EXPRO')),        # header text (block A)
+              ('RUN_2/', BT, None),
+              ('RUN_3/', BT, _subst(b'T  2 9 / 1 0')),       # block B
+              ('RUN_3/SUB/', BT, _subst(b'CONDSN  SP'))],    # channel names
+             []),
+    ]
+
+
+FIXED_MODES = ['seq', 'j1', 'j2']
+
+
+def check_fixed_not_vacuous(ctx, recipe, run):
+    """Every variant of the fixed corpus must convert and its stand-alone OUTPUT must differ from the original's."""
+    import core
+    by_base = {}
+    for f in recipe['files']:
+        by_base.setdefault((os.path.basename(f['name']), f['src']), []).append(f)
+    differing = 0
+    for (bn, src), fs in by_base.items():
+        origs = [f for f in fs if f['damage'] is None]
+        if not origs:
+            continue
+        strip = lambda nm: sorted((os.path.basename(k), v[0]) for k, v in run['single_tree'][nm].items())
+        o = strip(origs[0]['name'])
+        for f in fs:
+            if f['damage'] is None:
+                continue
+            st = run['single'][f['name']]
+            ok = st[0] == 'ok' and st[1] and classify(res_tuple(st[1][0])) == 'ok'
+            if ok and strip(f['name']) != o:
+                differing += 1
+                ctx.nontriv(('fixed_pair', recipe['fmt'], f['name']))
+            else:
+                ctx.note('fixed corpus: variant %s of %s %s' % (f['name'], src, 'does not convert' if not ok else 'gives the same output as the original'))
+                ctx.count('fixed_variants_vacuous')
+    ctx.count('fixed_variants_output_differs', differing)
+    if differing == 0:
+        raise core.InfraError('fixed corpus of %s is vacuous: no variant output differs from the original output' % recipe['fmt'])
 
 
 def gen_opt(rng, fmt):
@@ -379,7 +491,7 @@ def gen_prefix_recipe(ctx, fmt, base, tag=''):
     files = []
     for nm in family:
         if nm in bad and fails:
-            src, d, _c, _n = fails[rng.randrange(min(len(fails), 4))]
+            src, d, _c, _n, _sig = fails[rng.randrange(min(len(fails), 4))]
             files.append({'name': nm, 'src': src, 'damage': d})
         elif nm in bad:
             src = rng.choice(spec['valid'])
@@ -401,14 +513,32 @@ def gen_recursive_recipe(ctx, fmt, base, tag=''):
     rng = ctx.rng
     spec = FMT[fmt]
     opt = gen_opt(rng, fmt)
-    scr = screen(fmt, gen_candidates(rng, fmt, 'variant', 10), opt, os.path.join(base, 'screen'))
-    variants = [c for c in scr if c[2] == 'ok']
-    ctx.count('variant_candidates', len(scr)); ctx.count('variants_found', len(variants))
+    cands = [(s_, None) for s_ in spec['valid']] + gen_candidates(rng, fmt, 'variant', 12)
+    scr = screen(fmt, cands, opt, os.path.join(base, 'screen'))
+    orig = {c[0]: c[4] for c in scr if c[1] is None}
+    # a variant counts only if it still converts AND its output differs from the original's output (else it exercises nothing)
+    variants = [c + (sig_diff(c[4], orig.get(c[0], {})),) for c in scr if c[1] is not None and c[2] == 'ok']
+    variants = [c for c in variants if c[5]]
+    # prefer the example with the richest output (most sections: well, parameter, curve, array) and parameter/well changes
+    rich = lambda src: sum(len(v) for v in orig.get(src, {}).values())
+    variants.sort(key=lambda c: (-rich(c[0]), 0 if '~Parameter' in c[5] else 1))
+    ctx.count('variant_candidates', len(scr) - len(orig)); ctx.count('variants_output_changing', len(variants))
     e = rng.choice(spec['exts'][:2])
     dirs = ['', 'RUN_1/', 'RUN_2/', 'RUN_2/SUB/', 'run_1/']
     rng.shuffle(dirs)
-    contents = [(s_, None) for s_ in spec['valid']] + [(c[0], c[1]) for c in variants[:3]]
-    rng.shuffle(contents)
+    contents = []
+    if variants:
+        v = variants[0] if rng.random() < 0.7 else rng.choice(variants)
+        pair = [(v[0], None), (v[0], v[1])]      # the original and an output-changing variant under ONE basename
+        rng.shuffle(pair)
+        contents += pair
+        ctx.count('recursive_dirs_with_output_changing_pair')
+        ctx.nontriv(('same_basename_pair', fmt, v[0], tuple(sorted(v[5]))))
+    else:
+        ctx.count('recursive_dirs_without_output_changing_variant')
+    rest = [(s_, None) for s_ in spec['valid']] + [(c[0], c[1]) for c in variants[1:4]]
+    rng.shuffle(rest)
+    contents += rest
     files = []
     for i, d in enumerate(dirs[:rng.randint(3, 5)]):
         src, dmg = contents[i % len(contents)]
@@ -1117,6 +1247,17 @@ def run(ctx):
             shutil.rmtree(os.path.join(base, 'nm_' + fmt), ignore_errors=True)
     modes = modes_for(ctx)
     k = 0
+    for recipe in fixed_recipes():
+        dbase = os.path.join(base, 'fx%d' % k); k += 1
+        r = run_directory(recipe, dbase, FIXED_MODES, log_mode='j2' if getattr(ctx, 'model_available', True) else None)
+        check_fixed_not_vacuous(ctx, recipe, r)
+        fails, single = evaluate(ctx, recipe, r, FIXED_MODES)
+        record(ctx, recipe, r, FIXED_MODES, fails, single)
+        ctx.count('directories_fixed')
+        if getattr(ctx, 'model_available', True):
+            corr_real_schedule(ctx, recipe, r, 'j2')
+        ctx.sample(summary(recipe))
+        shutil.rmtree(dbase, ignore_errors=True)
     for fmt, shapes in plan(ctx):
         nrand = 0
         for d, shape in enumerate(shapes):
